@@ -197,6 +197,8 @@ func normSel(v interface{}, syntactic bool) interface{} {
 		if syntactic {
 			delete(out, "type")
 			delete(out, "argDefs")
+			out["args"] = stripKey(m["args"], "et")
+			out["dirs"] = stripKey(m["dirs"], "et")
 		}
 	case "i", "s":
 		if syntactic {
@@ -208,6 +210,27 @@ func normSel(v interface{}, syntactic bool) interface{} {
 		out["sub"] = normSels(sub, syntactic)
 	}
 	return out
+}
+
+// stripKey removes a key at every depth of a JSON value.
+func stripKey(v interface{}, key string) interface{} {
+	switch x := v.(type) {
+	case map[string]interface{}:
+		out := map[string]interface{}{}
+		for k, e := range x {
+			if k != key {
+				out[k] = stripKey(e, key)
+			}
+		}
+		return out
+	case []interface{}:
+		out := make([]interface{}, len(x))
+		for i, e := range x {
+			out[i] = stripKey(e, key)
+		}
+		return out
+	}
+	return v
 }
 
 func normSels(vs []interface{}, syntactic bool) []interface{} {
